@@ -51,7 +51,8 @@ int SystemdRestart<Base>::init(
     return 1;
   }
 
-  Oomd::setStat(kRestartsKey, 0);
+  // creates the key when it is missing, keeps restarts already counted
+  Oomd::incrementStat(kRestartsKey, 0);
 
   // Success
   return 0;
